@@ -21,6 +21,9 @@ func main() {
 	verif := flag.String("verif", "/verif", "verif root (evidence, known findings)")
 	only := flag.String("rule", "", "run only rules whose name contains this string")
 	list := flag.Bool("list", false, "list properties with rules")
+	knownPath := flag.String("known", "", "known findings file (default <verif>/known_findings.json)")
+	child := flag.Bool("child", false, "internal: run as a sub-analysis of the thorough tier")
+	config := flag.String("config", "", "build configuration os[/arch] (default: host, linux/amd64)")
 	flag.Parse()
 	if *list {
 		for _, id := range rules.IDs() {
@@ -39,12 +42,15 @@ func main() {
 	}
 	abs, _ := filepath.Abs(*repo)
 	rep := core.NewReport(*prop, *tier, seed)
-	known, err := core.LoadKnown(filepath.Join(*verif, "known_findings.json"))
+	if *knownPath == "" {
+		*knownPath = filepath.Join(*verif, "known_findings.json")
+	}
+	known, err := core.LoadKnown(*knownPath)
 	if err != nil {
 		fmt.Println("cannot read known findings:", err)
 		os.Exit(2)
 	}
-	p, err := core.Load(abs, "")
+	p, err := core.Load(abs, *config)
 	if err != nil {
 		// a tree that does not load cannot be decided: that is a failure of the check, reported as such
 		rep.Rule("LOAD", "the repository loads and type-checks", 1)
@@ -73,6 +79,16 @@ func main() {
 			}
 		}
 		os.Exit(code)
+	}
+	if *tier == "thorough" && !*child && *config == "" {
+		self, err := os.Executable()
+		if err == nil {
+			core.RunConfigs(rep, self, abs, *knownPath)
+			core.RunSelfTest(rep, self, abs, *verif, *knownPath)
+		} else {
+			rep.Rule("CONFIG", "the rule set can be decided under every build configuration", 0)
+			rep.Fail("CONFIG", "self", "", err.Error())
+		}
 	}
 	os.Exit(rep.Finish(p, *verif, known))
 }
